@@ -235,12 +235,25 @@ def loadCandidatesC (cache : Option Cache) (enc : Bool) (u : User) (re : Nat →
 def loadSnapshotsC (cache : Option Cache) (enc : Bool) (u : User) (re : Nat → Bool) (s : Store) : Except Err (List Loaded) :=
   sequenceE (loadCandidatesC cache enc u re s)
 
-/-- the cache after a load: every listed, visible, matching snapshot that was downloaded and verified is stored -/
+/-- is the cached copy for `(f, sid)` the one `_download_snapshot_threadsafe` goes on with (present, and — when the code
+verifies — hashing to the name)?  If not, the snapshot is downloaded. -/
+def cacheUsable (c : Cache) (f : Fam) (sid : Nat) : Bool :=
+  match get c (.snap f sid) with
+  | none => false
+  | some cached =>
+    if Gen.cacheVerified then
+      (match cached with
+       | .snap f' sid' _ => f' == f && sid' == sid
+       | _ => false)
+    else true
+
+/-- the cache after a load: every listed, visible, matching snapshot that was downloaded and verified is stored
+(`_store_cached` overwrites an invalid entry that was ignored) -/
 def cacheAfterLoad (cache : Cache) (enc : Bool) (u : User) (re : Nat → Bool) (s : Store) : Cache :=
   s.foldl (fun c e =>
     match e.1, e.2 with
     | .snap f sid, .snap f' sid' b =>
-      if re sid && visible enc u f && f' == f && sid' == sid && (get c (.snap f sid)).isNone then put c (.snap f sid) (.snap f' sid' b) else c
+      if re sid && visible enc u f && f' == f && sid' == sid && !cacheUsable c f sid then put c (.snap f sid) (.snap f' sid' b) else c
     | _, _ => c) cache
 
 /-! ## histories -/
